@@ -4,6 +4,7 @@ Decides what precedence, binding and the single-terminal-action clauses structur
 alternatives, immediate return on a match, undo of bindings on backtracking, exactly one terminal action per path of
 Router::route, 405 only with a non-empty Allow set built from matching other methods, normalisation on every entry point.
 Does not decide the match result for every table x path."""
+import re
 from .. import cfg, lib, facts
 from ..facts import AnalysisBroken, strip_tmpl
 
@@ -90,6 +91,10 @@ def run(ck):
             defs = [x for x in f.events(("decl", "call", "assign")) if (x["k"] == "decl" and x.get("var") == routevar) or
                     (x["k"] == "call" and x.get("op") == "=" and (x.get("recv") or {}).get("v") == routevar)]
             derived = any(rv and rv in (((x.get("init") or {}).get("t") or "") + " ".join(a.get("t") or "" for a in x.get("args", []))) for x in defs)
+            # or the route component of the result is tested in place: std::get<0>(result) != nullptr
+            import re as _re
+            derived = derived or bool(rv and _re.search(r"get<0>\(\s*%s\s*\)" % _re.escape(rv), (t.get("lhs") or {}).get("t") or ""))
+            routevar = routevar or ((t.get("lhs") or {}).get("t") or "")
             hit = cur.succs[0] if t.get("cmp") == "!=" else cur.succs[1]
             hb = f.blocks.get(hit)
             rets = [x for x in (hb.elems if hb else []) if x["k"] == "return"]
@@ -189,8 +194,19 @@ def run(ck):
     rr = lib.single(prog, N + "removeRoute")
     rets = [e for e in rr.events("return")]
     ck.require(rets, "no return in removeRoute")
+    def deep_refs(fn_, e, depth=0):
+        """references of a returned expression, looking through the local lambdas / helpers of the same class it calls"""
+        refs = set(e.get("refs") or [])
+        if depth < 3:
+            for r in list(refs):
+                if r.startswith("c:"):
+                    for g in prog.by_base.get(strip_tmpl(r[2:]), []) + [l for l in prog.lambdas_in(prog.owner(fn_)) if l.name == r[2:] or l.id.split("#in:")[0] == r[2:]]:
+                        if g.blocks and (g.is_lambda or g.cls == fn_.cls):
+                            for re_ in g.events("return"):
+                                refs |= deep_refs(g, re_, depth + 1)
+        return refs
     for i, e in enumerate(rets):
-        refs = e.get("refs") or []
+        refs = deep_refs(rr, e)
         missing = [m for m in members if ("f:" + N + m) not in refs]
         ck.ob("C10-R6", "removeRoute/return#%d-own-emptiness" % i, not missing, e.loc, rr,
               "mentions %s" % members if not missing else "the returned removability ignores %s: a node that still holds it would be erased by its parent" % missing)
@@ -227,14 +243,20 @@ def run(ck):
     accept_edges, stop_edges = set(), set()
     for b in g.blocks.values():
         t = b.term
-        if t and t.get("k") == "if":
+        if t and t.get("k") == "if" and len(b.succs) == 2:
             refs = t.get("refs") or []
-            if "e:" + R + "Route::Result::Ok" in refs and t.get("cmp") == "==":
-                accept_edges.add((b.id, 0))
+            if "e:" + R + "Route::Result::Ok" in refs and t.get("cmp") in ("==", "!="):
+                for k_ in (0, 1):
+                    r_ = lib.rel_on_edge(t, k_)
+                    if r_ is not None and r_[1] == "==" and b.succs[k_] is not None:
+                        accept_edges.add((b.id, k_))
             mwres = {d_["var"] for d_ in g.events("decl") if strip_tmpl(d_.get("icall") or "") == "std::function::operator()" and "bool" in (d_.get("type") or "") + "bool"
                      and any(("v:" + rv_) in (d_.get("refs") or []) for rv_ in range_vars_over(g, R + "Router::middlewares"))}
-            if (t.get("core") or {}).get("v") in mwres and t.get("neg") and not t.get("cmp"):
-                stop_edges.add((b.id, 0))
+            if (t.get("core") or {}).get("v") in mwres and not t.get("cmp"):
+                # the edge on which the middleware's result is false (`if (!result) return` or `if (result) continue; return`)
+                for k_ in (0, 1):
+                    if ((k_ == 0) != bool(t.get("neg"))) is False and b.succs[k_] is not None:
+                        stop_edges.add((b.id, k_))
     ck.require(accept_edges and stop_edges, "custom-handler accept / middleware stop branches not found in Router::route")
 
     def step(st, ev):
@@ -270,14 +292,30 @@ def run(ck):
               "the not-found answer at line %s can be given before the other methods' trees were probed: a request that another method would match "
               "gets 404 instead of 405 with Allow" % e.get("l"))
     # building the list: skip own method, push only when the other tree matches
-    pb_ = [e for e in g.calls(lambda e: e.base_callee() == "std::vector::push_back" and (e.get("recv") or {}).get("v") == SM)]
+    # the list is filled in Router::route itself, or in a local lambda whose result initialises it
+    builders = [(g, SM)]
+    smd = [d_ for d_ in g.events("decl") if d_.get("var") == SM]
+    if smd and (smd[0].get("icall") or "").startswith("lambda@"):
+        for lf in prog.lambda_by_id(smd[0]["icall"].split("#in:")[0], g):
+            rv_ = {(re_.get("val") or {}).get("v") or (re_.get("val") or {}).get("root") for re_ in lf.events("return")}
+            builders += [(lf, v_) for v_ in rv_ if v_]
+    pb_ = [(fn_, e) for fn_, var_ in builders for e in fn_.calls(lambda e: e.base_callee() == "std::vector::push_back" and (e.get("recv") or {}).get("v") == var_)]
     ck.require(len(pb_) == 1, "supportedMethods.push_back sites: %d" % len(pb_))
-    e = pb_[0]
-    skip = [b for b in g.blocks.values() if b.term and b.term.get("k") == "if" and b.term.get("cmp") == "==" and "c:" + "Pistache::Http::Request::method" in (b.term.get("refs") or [])]
-    nn = [b for b in g.blocks.values() if b.term and b.term.get("k") == "if" and b.term.get("cmp") == "!=" and (b.term.get("rconst") == "nullptr" or "nullptr" in ((b.term.get("rhs") or {}).get("t") or ""))]
-    ok_skip = any(cfg.edge_dominates(g, b.id, 1, e) for b in skip)
-    ok_match = any(cfg.edge_dominates(g, b.id, 0, e) for b in nn)
-    ck.ob("C10-R3", "route/allow-list-construction", ok_skip and ok_match, e.loc, g,
+    bf, e = pb_[0]
+    ok_skip = ok_match = False
+    for b in bf.blocks.values():
+        t_ = b.term
+        if not t_ or len(b.succs) != 2:
+            continue
+        for k_ in (0, 1):
+            r_ = lib.rel_on_edge(t_, k_)
+            if r_ is None or b.succs[k_] is None or r_[1] != "!=" or not cfg.edge_dominates(bf, b.id, k_, e):
+                continue
+            if "c:" + "Pistache::Http::Request::method" in (t_.get("leafrefs") or t_.get("refs") or []):
+                ok_skip = True
+            if t_.get("rconst") == "nullptr" or "nullptr" in ((r_[2].get("t") or "") + (r_[0].get("t") or "")):
+                ok_match = True
+    ck.ob("C10-R3", "route/allow-list-construction", ok_skip and ok_match, e.loc, bf,
           "pushed only for a method other than the request's (%s) whose tree returns a route (%s)" % (ok_skip, ok_match))
     # the terminal route handler is invoked with the bindings of the lookup
     ih = [e for e in g.events("call") if terminal(e) == "route"]
@@ -292,8 +330,10 @@ def run(ck):
         tree = [e for e in fn.calls(lambda e: (e.get("callee") or "") in (N + "addRoute", N + "removeRoute", N + "findRoute"))]
         ck.require(tree, "no tree operation in Router::%s" % name)
         sv = [x for x in fn.events("decl") if strip_tmpl(x.get("icall") or "") == N + "sanitizeResource"]
-        pv_ = tree[0]["args"][0].get("v")
-        pathdecl = [x for x in fn.events("decl") if x.get("var") == pv_]
-        uses = bool(sv) and bool(pathdecl) and all(sv[0]["var"] in (((p.get("init") or {}).get("t") or "") + " ".join(p.get("refs") or [])) or "ptr" in ((p.get("init") or {}).get("t") or "") for p in pathdecl)
-        ok = len(san) == 1 and all(cfg.ev_dominates(d, san[0], t) for t in tree) and all((t["args"][0].get("v") == pv_) for t in tree) and bool(pv_) and uses
+        # the path handed to the tree is computed from the sanitised string (through a copy into owned storage where there is one)
+        der = lib.derived_vars(fn, {x["var"] for x in sv}) if sv else set()
+        def from_sanitized(arg):
+            return any(re.search(r"\b%s\b" % re.escape(v), arg.get("t") or "") for v in der)
+        uses = bool(sv) and all(t["args"] and from_sanitized(t["args"][0]) for t in tree)
+        ok = len(san) == 1 and all(cfg.ev_dominates(d, san[0], t) for t in tree) and uses
         ck.ob("C10-R4", "sanitize:Router::" + name, ok, fn.loc, fn, "sanitizeResource dominates %d tree operation(s), which take the sanitized path" % len(tree))
